@@ -91,7 +91,7 @@ func c08Globals(c *Ctx, prop string) {
 	c.R.Analysed["globals"] = globals
 	c.R.Analysed["api_reachable_functions"] = nfn
 	c.R.Analysed["init_global_writes_seen"] = ninit
-	c.R.Floor(rule, 20)
+	c.R.Floor(rule, 10)
 }
 
 func isTreeType(c *Ctx, t types.Type) bool {
@@ -152,7 +152,7 @@ func c08Tree(c *Ctx, prop string) {
 		}
 	}
 	c.R.Analysed["tree_parameters_checked"] = n
-	c.R.Floor(rule, 30)
+	c.R.Floor(rule, 12)
 }
 
 // returnsFresh: every return of f (result idx) is an allocation made in f (or in a callee that returns fresh).
